@@ -33,7 +33,9 @@ Definition violated (r : rule_id) (s : sdocument) (d : document) : bool :=
   | R_UniqueDirectivesPerLocation => v_unique_directives_per_location s d
   end.
 
-(* operations are told apart by name: at most one anonymous operation, named ones distinct *)
+(* operations are told apart by name: at most one anonymous operation, named ones distinct
+   (no rule's side condition any more: the variable rules key their per-operation tables by the
+   operation's index in the document) *)
 Definition distinct_operations (d : document) : bool :=
   negb (v_unique_operation_names d) &&
   Nat.leb (List.length (filter (fun o => is_none (op_node_name o)) (operations_of d))) 1.
@@ -45,8 +47,10 @@ Definition rule_in_scope (r : rule_id) (s : sdocument) (d : document) : bool :=
   match r with
   | R_NoUnusedFragments | R_NoFragmentsCycle | R_PossibleFragmentSpreads | R_SingleFieldSubscriptions =>
       distinct_fragments d
+  (* the variable rules are exact on documents whose operations share names (or are all
+     anonymous); a spread of a twice-defined fragment name has no defined meaning *)
   | R_NoUnusedVariables | R_NoUndefinedVariables | R_VariablesInAllowedPosition =>
-      distinct_fragments d && distinct_operations d
+      distinct_fragments d
   | R_OverlappingFieldsCanBeMerged =>
       distinct_fragments d && negb (v_no_fragment_cycles d) && negb (v_unique_argument_names s d)
   | R_ValuesOfCorrectType => negb (v_variables_are_input_types s d)
